@@ -1,6 +1,7 @@
 CFG = {
     "modules": ["Parsley.Props.C04", "Parsley.Props.C04Ctx", "Parsley.Props.C04E2E", "Parsley.Props.C04Hist", "Parsley.Props.C04HistMix", "Parsley.Props.C04Enc",
-                "Parsley.Props.C04Render", "Parsley.Props.C04Hyb", "Parsley.Props.C04ObjStm"],
+                "Parsley.Props.C04Render", "Parsley.Props.C04Hyb", "Parsley.Props.C04ObjStm",
+                "Parsley.Props.C04RenderDeep", "Parsley.Props.C04AnyFlate", "Parsley.Props.C04HybObjStm", "Parsley.Props.C04Fwd", "Parsley.Props.C04All"],
     "theorems": [
         "Parsley.C04.prev_cycle_or_oob_rejected", "Parsley.C04.root_from_newest", "Parsley.C04.merge_is_newest_wins_partial",
         "Parsley.C04.infoOf_inFile",
@@ -57,6 +58,33 @@ CFG = {
         "Parsley.LoaderE2E.MixFile.xrefinfo_mix2", "Parsley.LoaderE2E.load_mix_core2", "Parsley.LoaderE2E.load_mix_objstm",
         "Parsley.LoaderE2E.load_mix_objstm_objs", "Parsley.LoaderE2E.load_mix_objstm_spec", "Parsley.LoaderE2E.MixFile.WF.toWFo",
         "Parsley.LoaderE2E.TableOf2.written_nodup", "Parsley.LoaderE2E.not_mentioned_iffO",
+        # follow-up C03e: (1) generator link for values of any shape, (2) FlateDecode by any conformant encoder, (3) hybrid + object streams, forward /Length in histories
+        "Parsley.C04.histSimple_values", "Parsley.C04.render_history_loads_deep_partial", "Parsley.C04.exDog_canon",
+        "Parsley.C04.exHistD_simple", "Parsley.C04.stmOK_of_flate_encoder", "Parsley.C04.stmOK_of_flate_encoder_pred",
+        "Parsley.C04.FlateStm.toStmOK", "Parsley.C04.FlateRev.toOK", "Parsley.C04.newest_wins_history_mix_anyflate",
+        "Parsley.C04.exZMPlan_ok", "Parsley.C04.exZMDict_spells", "Parsley.C04.exZMStm_flate",
+        "Parsley.C04.exZMix_wf", "Parsley.C04.exZMix_loads", "Parsley.LoaderE2E.stored_of_layerEnc",
+        "Parsley.LoaderE2E.inflate_of_layerEnc", "Parsley.LoaderE2E.stored_decodes", "Parsley.LoaderObjStm.decodesTo_of_stored",
+        "Parsley.C04.newest_wins_history_hybrid_objstm", "Parsley.C04.newest_wins_history_hybrid_objstm_objs", "Parsley.C04.newest_wins_history_hybrid_objstm_spec",
+        "Parsley.C04.newest_wins_history_hybrid_of_objstm", "Parsley.C04.exclusion_on_all_entries", "Parsley.C04.hybrid_member_row",
+        "Parsley.C04.exHO_wf", "Parsley.C04.exHO_resolve", "Parsley.LoaderE2E.load_hybmix_objstm",
+        "Parsley.LoaderE2E.load_hybmix_objstm_objs", "Parsley.LoaderE2E.load_hybmix_objstm_spec", "Parsley.LoaderE2E.hsec_reads2",
+        "Parsley.LoaderE2E.memberTouchedLater_vis", "Parsley.LoaderE2E.HRev.mem_vis_of_inStream", "Parsley.LoaderE2E.objstm_not_xref_h",
+        "Parsley.LoaderE2E.HybMixFile.WF.toWFo", "Parsley.LoaderE2E.HybMixFile.xrefinfo_hybmix2", "Parsley.LoaderE2E.HybMixFile.merge_visible2",
+        "Parsley.LoaderE2E.load_hybmix_core2", "Parsley.C04.newest_wins_history_fwd", "Parsley.C04.newest_wins_history_fwd_objs",
+        "Parsley.C04.newest_wins_history_fwd_spec", "Parsley.C04.wf_is_fwd", "Parsley.C04.exFwd_wf",
+        "Parsley.C04.exFwdX_wf", "Parsley.C04.exFwdR_wf", "Parsley.C04.exFwdM_wf",
+        "Parsley.LoaderE2E.load_mix_fwd", "Parsley.LoaderE2E.load_mix_fwd_objs", "Parsley.LoaderE2E.load_mix_fwd_spec",
+        "Parsley.LoaderE2E.stage_merged_two_pass", "Parsley.LoaderE2E.objs_ofs_inj", "Parsley.LoaderE2E.placeM_objs_sorted",
+        "Parsley.LoaderE2E.msec_reads_sec", "Parsley.LoaderE2E.MixFile.xrefinfo_mix_fwd", "Parsley.LoaderE2E.MixFile.find_tables_inv",
+        "Parsley.LoaderE2E.MixFile.WF.toFwd",
+        # ... (3c) THE MOST GENERAL HISTORY THEOREM: forward /Length + object streams + hybrid sections; stream objects in the generator link
+        "Parsley.C04.newest_wins_history_all", "Parsley.C04.newest_wins_history_all_objs", "Parsley.C04.newest_wins_history_all_spec",
+        "Parsley.C04.wfo_is_all", "Parsley.C04.wffwd_is_all", "Parsley.C04.exAll_wf",
+        "Parsley.LoaderE2E.stage_merged_two_pass_objstm", "Parsley.LoaderE2E.load_hybmix_all", "Parsley.LoaderE2E.load_hybmix_all_objs",
+        "Parsley.LoaderE2E.load_hybmix_all_spec", "Parsley.LoaderE2E.HybMixFile.WFo.toAll", "Parsley.LoaderE2E.MixFile.WFfwd.toAll",
+        "Parsley.LoaderE2E.hobjs_ofs_inj", "Parsley.LoaderE2E.hsec_reads_sec", "Parsley.LoaderE2E.wstmOf_ok",
+        "Parsley.LoaderE2E.renderObj_stm", "Parsley.C03.exDeepO5_simple",
     ],
     "partial": {
         "merge_is_newest_wins_partial":
@@ -89,8 +117,9 @@ CFG = {
             "per-revision interface RevLink, proved by cls_link / stm_link for a revision rendered at ANY position with ANY /Prev; composition plan / histFile / histFile_wf), what "
             "the encoder REPORTS (the Said list the judge feeds to DocSpec.resolve) resolves to the same bindings as the layout's description (render_history_resolve), hence "
             "parseData (renderHistory ..) = ok, root = the newest revision's root and the final context = DocSpec.resolve of the encoder's report. No hypothesis about the walk, "
-            "the chain or the file remains - only conditions on the REVISION LIST: HistSimple = every revision SimpleRev / SimpleRevX (scalar objects written canonically - _partial "
-            "for that reason, as in C03's single-revision links -, no object-stream members, no swap / relabel, size bounds; FlateDecode'd rows at most 13 bytes x (objects + frees + 2) "
+            "the chain or the file remains - only conditions on the REVISION LIST: HistSimple = every revision SimpleRev / SimpleRevX (objects Body.val (canon s) s with s ANY value of the encoder's domain wfDeep - arrays and dictionaries of any nesting, entries in any order, depth <= 50 - "
+            "since follow-up C03e lifted the restriction to scalars (Props/C04RenderDeep.lean: render_history_loads_deep_partial, histSimple_values; non-vacuity exHistD_simple: nested values redefined across a "
+            "classic / Flate+PNG-Up stream / classic history, loaded to their SORTED forms); and STREAM OBJECTS with a direct /Length and arbitrary data (LoaderE2E.wstmOf_ok; exHistD has one, written by the stream update); _partial now because streams with a referenced /Length are not covered, no object-stream members, no swap / relabel, size bounds; FlateDecode'd rows at most 13 bytes x (objects + frees + 2) "
             "<= 65535), at least one revision, stable generations over all revisions, cross-reference stream objects not mentioned later, no object numbered 0, file < 2^32 bytes. "
             "Non-vacuity exHistR_simple: classic base, Flate + PNG-Up stream update (redefine, add, free), classic update re-creating the freed number - evaluated examples. "
             "(2) HYBRID SECTIONS IN A HISTORY (Props/C04Hyb.lean; newest_wins_history_hybrid, _objs, _spec over HybMixFile = MixFile whose revisions may also be table + trailer /XRefStm -> "
@@ -104,9 +133,24 @@ CFG = {
             "predicate memberTouchedLater (a later section mentions a member or container number): WFo asks it to be false; objstm_member_touched_excluded evaluates it to true on the "
             "witness objstmRedef (sections read with the model: objstmRedef_sections). WF is the special case ws = [] (newest_wins_history_mix_of_objstm). Stage lemma stage_merged_objstm. "
             "Non-vacuity exO_wf (stream base with an object stream of two members + classic update touching no member). "
-            "STILL OPEN: (2) and (3) combined (hybrid sections whose stream hides object-stream members, inside a history), /Encrypt in a history with stream sections, objects that load only in "
-            "the second pass (forward /Length) in a history (single revisions of all these kinds: C03 load_defines_exactly_xrefstream_all / _hybrid_all), the generator link for hybrid revisions "
-            "(kind 2), object-stream members and non-scalar values. "
+            "FOLLOW-UP C03e CLOSED FOUR MORE. (4) (2)+(3) COMBINED (Props/C04HybObjStm.lean; newest_wins_history_hybrid_objstm, _objs, _spec over HybMixFile.WFo root ws): histories of any length whose plain "
+            "cross-reference streams AND whose hybrid /XRefStm streams may have type-2 rows naming members of the object streams ws; a hidden member is listed twice in its hybrid section (free in the table with a generation "
+            "other than 0 - noClash -, type-2 row in the stream); the exclusion memberTouchedLater is stated on the VISIBLE entries and proved to take the same value on all entries (exclusion_on_all_entries = "
+            "memberTouchedLater_vis); WF is the special case ws = [] (newest_wins_history_hybrid_of_objstm). Non-vacuity exHO_wf (classic base + hybrid update writing object stream 3 with members 11 (hidden) and 12), "
+            "exHO_resolve. (5) FORWARD /Length IN A HISTORY (Props/C04Fwd.lean; newest_wins_history_fwd, _objs, _spec over MixFile.WFfwd root dep): body pieces read outright or as soon as their holder is bound "
+            "(PieceOK dep); `holders`: the holder of every LOADED dependent stream resolves in the merged table to a plain integer object (in an older, the same or a newer revision; a later rewrite with the same "
+            "integer is fine, a later free falsifies the hypothesis); stage_merged_two_pass runs both passes of parse_objects on the first-seen-wins merged table; objects are identified by offset (objs_ofs_inj); "
+            "MixFile.WF is the special case dep = none (wf_is_fwd). Non-vacuity exFwd_wf (holder after the stream in the base), exFwdX_wf (holder in an OLDER revision: second pass across revisions), exFwdR_wf "
+            "(holder rewritten by the update), exFwdM_wf (cross-reference stream update). (6) FlateDecode BY ANY CONFORMANT ENCODER (Props/C04AnyFlate.lean): the storage predicate inside StmOK / StmOK2 / HybOK / "
+            "WCont.Data now admits ANY zlib stream the modelled inflate decodes (Stored.flateAny / flatePredAny), in particular every stored / fixed-Huffman / dynamic-Huffman stream of C06's specification encoders; all "
+            "history theorems hold unchanged; stmOK_of_flate_encoder(_pred), newest_wins_history_mix_anyflate (FlateRev), witness exZMix_loads: the update's cross-reference stream is a fixed-Huffman + stored + "
+            "dynamic-Huffman zlib stream. (7) VALUES OF ANY SHAPE in the generator link (see (1)). "
+            "(8) THE MOST GENERAL HISTORY THEOREM (Props/C04All.lean; newest_wins_history_all, _objs, _spec over HybMixFile.WFall root ws dep): (4) and (5) COMBINED - histories of any length whose revisions are classic / "
+            "cross-reference stream / hybrid, with object streams (hidden members included) AND streams taking their /Length from holders loaded later (second pass, also across revisions; a CONTAINER may itself have a forward "
+            "/Length); stage_merged_two_pass_objstm = both passes + object-stream pass on the merged visible table; WFo (dep = none) and WFfwd (embedded by MixFile.toHyb) are special cases (wfo_is_all, wffwd_is_all). "
+            "Non-vacuity exAll_wf: exHO + a stream object in the hybrid update whose holder lives in the base revision. "
+            "STILL OPEN: /Encrypt in a history with stream sections, holders that are MEMBERS of object streams (the real loader reads object streams after both passes, so such a stream stays unread), "
+            "the generator link for hybrid revisions (kind 2), object-stream members and streams with a referenced /Length. "
             "ENCRYPTION: histories that declare /Encrypt are judged on the real code by DocSpec.acceptable (refused, or exactly DocSpec.resolve of the chain; 8 generator families). KNOWN FINDING "
             "encrypt-declared-below-streams (witness Props/C04Enc.lean): a trailer that declares BELOW a stream section is read after that stream was accepted - the load is accepted and every "
             "object-stream member is silently undefined, which breaks the statement literally. Observation, not a finding: a declaration only in a stream dictionary is never consulted and the "
@@ -166,10 +210,12 @@ LEVEL = {
             "later is bound to its OLD value while its stream neighbours are lost (#30). END-TO-END THEOREM newest_wins_history_mix: for every well-formed history of ANY number "
             "of revisions encoded with classic tables or cross-reference streams in any mix (declarative layout MixFile, all offsets computed from the layout, stable generations) parse_data accepts, reports the newest "
             "root and the final context equals the oracle DocSpec.resolve of what the revisions said. THE GENERATOR LINK render_history_loads_partial: the file the executable encoder DocSpec.renderHistory writes for "
-            "ANY list of simple revisions (kinds 0 / 1, scalar values, stable generations) is such a MixFile and the loader's context is DocSpec.resolve of the encoder's own report - the "
+            "ANY list of simple revisions (kinds 0 / 1, object values of any shape the encoder can spell, stable generations) is such a MixFile and the loader's context is DocSpec.resolve of the encoder's own report - the "
             "judge's oracle on the same case. Also proved end to end: histories with HYBRID sections incl. hidden objects (newest_wins_history_hybrid; the shape of known finding #31 excluded by the "
             "decidable predicate hiddenClash, true on the witness) and histories with OBJECT STREAMS whose members and containers no later revision mentions (newest_wins_history_objstm; #30 "
-            "excluded by the decidable predicate memberTouchedLater, true on the witness). Changing generations, touched members and the remaining layout combinations are decided on the real code by the "
+            "excluded by the decidable predicate memberTouchedLater, true on the witness), both combined (newest_wins_history_hybrid_objstm: hybrid sections hiding object-stream members), histories whose streams take "
+            "their /Length from holders loaded later, also across revisions (newest_wins_history_fwd), ALL of these at once (newest_wins_history_all), and cross-reference / object streams FlateDecode'd by ANY conformant encoder incl. dynamic Huffman "
+            "(newest_wins_history_mix_anyflate). Changing generations, touched members and the remaining layout combinations are decided on the real code by the "
             "oracle over generated histories (add / redefine / free, mixed table, stream and hybrid sections, all /Prev targets). "
             "THE ENCRYPTED FLAG ALONG THE CHAIN (Props/C04Enc.lean): a classic section that declares /Encrypt above a non-table section makes the walk refuse (or use none of its entries) - "
             "declared_above_stream_adds_nothing; the mirror image (declaration below the streams) is accepted with the object streams skipped and the members undefined: known finding with witness; histories "
